@@ -13,6 +13,7 @@ RULE = ("Generated: DensityMatrix with num_visible 1..4 x num_hidden 1..4 x num_
         "auxiliary configurations (partial trace by matrix product). Non-trivial = amplitude aux bias non-zero, weights_U of "
         "both networks non-zero, and some off-diagonal entry with |Im| > 1e-6*sqrt(rho_ii rho_jj).")
 RULE_EXT = ('Extended as built: n 5..8 in 1/16 of cases; phase auxiliary bias non-zero in 1/5 of cases; every evaluation repeated after a second object was evaluated and along the in-place history A -> B -> A; importance_sampling_* and compute_normalization compared with the same reference. Rounds 5-6: num_aux = 0 (1 in 12 cases); sparse single-entry-point histories; ownership of results for every rho call form, probability and normalization.')
+RULE_EXT += ' Round 10 (after an exception / long time axis): after an aborted fit() and a parameter change (same space object); sub-check sampling: empirical k-step law of DensityMatrix.sample for k in {2,17,40,100,200} on slowly mixing (balanced two-mode) networks vs T_ref^k.'
 RULE = RULE + " " + RULE_EXT
 ASSUMPTIONS = ["CPU only", "parameters rescaled so |log weight| <= 300",
                "entry tolerance 1e-6*sqrt(rho_ii*rho_jj); PSD checked on the unit-diagonal congruence D^-1/2 rho D^-1/2 with eigenvalues >= -1e-7"]
